@@ -1,6 +1,9 @@
 """Child R: a pristine process that never ran a history.  Recomputes the
 expected outcome of every checkable logged call from that call's arguments
 alone and returns verdicts."""
+import os
+import pickle
+
 import numpy
 
 from . import codec, env, exact, programs
@@ -24,6 +27,7 @@ class Refs(object):
         self.notes = []
         self._rec_direct = {}
         self.timed_out = False
+        self.tasks = []
 
     # ---- bookkeeping ---------------------------------------------------------
     def count(self, key, n=1):
@@ -39,13 +43,67 @@ class Refs(object):
 
     # ---- reference computations ------------------------------------------------
     def outcome(self, thunk, errstate=False):
+        """Expected outcome of one call, computed in a process of its own: R forks a child per
+        reference, so that every reference really is computed "in a process in which nothing
+        else ever happened" -- state that leaks through the process (a class-level memo, a
+        mutated default argument) cannot make reference k+1 wrong in the same way as the call
+        it is compared with."""
+        r, w = os.pipe()
+        pid = os.fork()
+        if pid == 0:
+            code = 0
+            try:
+                os.close(r)
+                res = self._outcome_here(thunk, errstate)
+                with os.fdopen(w, 'wb') as f:
+                    pickle.dump(res, f, protocol=pickle.HIGHEST_PROTOCOL)
+            except BaseException:
+                code = 3
+            finally:
+                os._exit(code)
+        os.close(w)
+        with os.fdopen(r, 'rb') as f:
+            data = f.read()
+        _, status = os.waitpid(pid, 0)
+        if status != 0 or not data:
+            raise env.HarnessError('reference child exited with status %r' % (status,))
+        res = pickle.loads(data)
+        if res == ['exc', 'CallTimeout']:
+            self.timed_out = True
+        return res
+
+    def defer(self, thunk, errstate, cont):
+        """Register a reference computation; `cont(want)` turns its outcome into verdicts.
+        The computations run after the bookkeeping pass, see run_deferred."""
+        self.tasks.append((thunk, errstate, cont))
+
+    def run_deferred(self):
+        """'fork': every reference in a pristine child of its own, in event order.
+        'reverse': all references in this process, in *reverse* event order -- cheap, and it
+        still decorrelates process-global state from the history under test: call k of the
+        history was preceded by calls < k, reference k by references > k."""
+        mode = self.run.get('config', {}).get('ref_isolation', 'fork')
+        tasks = self.tasks if mode == 'fork' else self.tasks[::-1]
+        for thunk, es, cont in tasks:
+            if self.timed_out:
+                self.count('aborted:reference_timeout')
+                break
+            if mode == 'fork':
+                want = self.outcome(thunk, es)
+            else:
+                want = self._outcome_here(thunk, es)
+                if want == ['exc', 'CallTimeout']:
+                    self.timed_out = True
+            cont(want)
+        self.verdicts.sort(key=lambda v: (v['seq'], v['oracle']))
+
+    def _outcome_here(self, thunk, errstate=False):
         err = numpy.errstate(all='raise') if errstate else numpy.errstate()
         try:
             with err:
                 with env.cpu_limit():
                     return ['ok', thunk()]
         except env.CallTimeout:
-            self.timed_out = True
             return ['exc', 'CallTimeout']
         except Exception as e:
             return ['exc', type(e).__name__]
@@ -302,6 +360,7 @@ class Refs(object):
                              ev.get('rec_exc'))
             else:
                 self.count('discarded:inadmissible_recording')
+        self.run_deferred()
 
     def judge_rec(self, ev, c):
         want, failed = self.rec_direct(c)
@@ -346,72 +405,69 @@ class Refs(object):
         got = ev['out']
         es = step.get('errstate', False)
         if 'C05' in self.props:
-            want = self.outcome(lambda: enc(self.direct(prog, [dec(a, self.al) for a in args])), es)
-            self.verdict('C05', 'O5.2', ev, same_outcome(got, want), got=brief(got), want=brief(want))
+            def cont5(want):
+                self.verdict('C05', 'O5.2', ev, same_outcome(got, want), got=brief(got), want=brief(want))
+            self.defer(lambda: enc(self.direct(prog, [dec(a, self.al) for a in args])), es, cont5)
         if 'C06' in self.props:
-            def pristine():
-                cg = self.record(prog, [dec(a, self.al) for a in args])
+            def call(cg):
                 xs = [dec(a, self.al) for a in args]
                 if step['api'] == 'function':
                     return enc(cg.function(xs))
                 cg.pushforward(xs)
                 return enc([f.x for f in cg.dependentFunctionList])
-            want = self.outcome(pristine, es)
-            ok = same_outcome(got, want)
-            lab = None
-            if not ok:
-                def call(cg):
-                    xs = [dec(a, self.al) for a in args]
-                    if step['api'] == 'function':
-                        return enc(cg.function(xs))
-                    cg.pushforward(xs)
-                    return enc([f.x for f in cg.dependentFunctionList])
-                lab = self.label(ev['c'], got, call)
-            self.verdict('C06', 'O6.fwd', ev, ok, got=brief(got), want=brief(want), label=lab)
+
+            def pristine():
+                return call(self.record(prog, [dec(a, self.al) for a in args]))
+
+            def cont6(want):
+                ok = same_outcome(got, want)
+                lab = None if ok else self.label(ev['c'], got, call)
+                self.verdict('C06', 'O6.fwd', ev, ok, got=brief(got), want=brief(want), label=lab)
+            self.defer(pristine, es, cont6)
 
     def judge_rev(self, ev, step, prog, fargs):
         if 'C06' not in self.props:
             return
         got = ev['out']
 
-        def pristine():
-            cg = self.record(prog, [dec(a, self.al) for a in fargs])
+        def call(cg):
             cg.pushforward([dec(a, self.al) for a in fargs])
             cg.pullback([dec(a, self.al) for a in ev['args']])
             return enc([f.xbar for f in cg.independentFunctionList])
-        want = self.outcome(pristine)
-        ok = same_outcome(got, want)
-        lab = None
-        if not ok:
-            def call(cg):
-                cg.pushforward([dec(a, self.al) for a in fargs])
-                cg.pullback([dec(a, self.al) for a in ev['args']])
-                return enc([f.xbar for f in cg.independentFunctionList])
-            lab = self.label(ev['c'], got, call)
-        self.verdict('C06', 'O6.rev', ev, ok, got=brief(got), want=brief(want), label=lab)
+
+        def pristine():
+            return call(self.record(prog, [dec(a, self.al) for a in fargs]))
+
+        def cont(want):
+            ok = same_outcome(got, want)
+            lab = None if ok else self.label(ev['c'], got, call)
+            self.verdict('C06', 'O6.rev', ev, ok, got=brief(got), want=brief(want), label=lab)
+        self.defer(pristine, False, cont)
 
     def judge_drv(self, ev, step, prog):
         got = ev['out']
         al = self.al
-        want = None
         if 'C04' in self.props or 'C06' in self.props:
+            def call(cg):
+                return driver_thunk(al, cg, step)()[0]
+
             def pristine():
                 x = numpy.array(step['x'], dtype=float)
                 x0 = al.UTPM(x) if step['name'] == 'jacobian_utpm' else x
-                cg = self.record(prog, [x0])
-                return driver_thunk(al, cg, step)()[0]
-            want = self.outcome(pristine)
-        lab = None
-        if want is not None and not same_outcome(got, want):
-            lab = self.label(ev['c'], got, lambda cg: driver_thunk(al, cg, step)()[0])
-        if 'C06' in self.props:
-            self.verdict('C06', 'O6.drv', ev, same_outcome(got, want), got=brief(got), want=brief(want),
-                         driver=step['name'], label=lab)
-        if 'C04' in self.props:
-            self.verdict('C04', 'O4a', ev, same_outcome(got, want), got=brief(got), want=brief(want),
-                         driver=step['name'], label=lab)
-            if prog['truth'] or prog['family'] in programs.PROBES:
-                self.judge_truth(ev, step, prog, got)
+                return call(self.record(prog, [x0]))
+
+            def cont(want):
+                ok = same_outcome(got, want)
+                lab = None if ok else self.label(ev['c'], got, call)
+                if 'C06' in self.props:
+                    self.verdict('C06', 'O6.drv', ev, ok, got=brief(got), want=brief(want),
+                                 driver=step['name'], label=lab)
+                if 'C04' in self.props:
+                    self.verdict('C04', 'O4a', ev, ok, got=brief(got), want=brief(want),
+                                 driver=step['name'], label=lab)
+            self.defer(pristine, False, cont)
+        if 'C04' in self.props and (prog['truth'] or prog['family'] in programs.PROBES):
+            self.judge_truth(ev, step, prog, got)
 
     def judge_truth(self, ev, step, prog, got):
         name = step['name']
